@@ -31,11 +31,13 @@ pub struct Scenario {
     pub padded: bool,
     pub pipe: u8,
     pub payload: usize,
+    /// the first data chunk of every request is larger than one frame
+    pub big: bool,
 }
 
 impl Scenario {
     fn describe(&self) -> Value {
-        json!({"requests": self.requests, "data_frames": self.data_frames, "api": self.api, "start_yields": self.start_yields, "heartbeats": self.heartbeats, "padded": self.padded, "pipe": self.pipe, "payload": self.payload})
+        json!({"requests": self.requests, "data_frames": self.data_frames, "api": self.api, "start_yields": self.start_yields, "heartbeats": self.heartbeats, "padded": self.padded, "pipe": self.pipe, "payload": self.payload, "big": self.big})
     }
     fn key(&self) -> String {
         format!("{:?}", self)
@@ -100,7 +102,8 @@ async fn run_async(sc: Scenario, seed: u64, quiesce: Duration) -> (Vec<(String, 
             logs.lock().unwrap().entry(task).or_default().push(Sub { cmd: refcodec::PSH, sid, data: dest.clone() });
             client.write_data_frame(sid, Bytes::from(dest)).await.map_err(|e| format!("task {task}: destination write: {e}"))?;
             for k in 0..sc2.data_frames {
-                let d = tagged(task, k as u32 + 1, sc2.payload + k);
+                // scenarios with `big` put one chunk above the frame limit first, followed at once by small ones
+                let d = tagged(task, k as u32 + 1, if sc2.big && k == 0 { 70_000 + j } else { sc2.payload + k });
                 logs.lock().unwrap().entry(task).or_default().push(Sub { cmd: refcodec::PSH, sid, data: d.clone() });
                 // one task never mixes the two submission paths for data (the queue of the forwarding
                 // task completes asynchronously, so mixing them promises no order); api 2 mixes across tasks
@@ -194,11 +197,24 @@ async fn run_async(sc: Scenario, seed: u64, quiesce: Duration) -> (Vec<(String, 
     for (task, subs) in &logs {
         let sid = subs[0].sid;
         let on_wire: Vec<&&RFrame> = got.iter().filter(|f| f.sid == sid && (f.cmd == refcodec::SYN || f.cmd == refcodec::PSH)).collect();
-        if on_wire.len() != subs.len() {
+        if subs.iter().any(|x| x.data.len() > 65535) {
+            // a chunk above one frame is legitimately split: judge the byte stream of the task in wire order
+            let want: Vec<u8> = subs.iter().filter(|s| s.cmd == refcodec::PSH).flat_map(|s| s.data.clone()).collect();
+            let have: Vec<u8> = on_wire.iter().filter(|f| f.cmd == refcodec::PSH).flat_map(|f| f.data.clone()).collect();
+            if on_wire.first().map(|f| f.cmd) != Some(refcodec::SYN) {
+                problems.push(("data_before_open".into(), format!("task {task} (stream {sid}): first frame on the wire is not its SYN — wire order: {}", order)));
+            } else if have != want {
+                let at = have.iter().zip(want.iter()).position(|(a, b)| a != b).unwrap_or(have.len().min(want.len()));
+                problems.push((if have.len() == want.len() { "frames_of_one_task_reordered" } else if have.len() < want.len() { "frame_missing" } else { "frame_duplicated" }.into(), format!("task {task} (stream {sid}) submitted {} payload bytes in chunks {:?}; the wire carries {} bytes for it and differs from the submission order at byte {at} (frame sizes on the wire: {:?})", want.len(), subs.iter().filter(|s| s.cmd == refcodec::PSH).map(|s| s.data.len()).collect::<Vec<_>>(), have.len(), on_wire.iter().filter(|f| f.cmd == refcodec::PSH).map(|f| f.data.len()).collect::<Vec<_>>())));
+            }
+        } else if on_wire.len() != subs.len() {
             problems.push((if on_wire.len() < subs.len() { "frame_missing" } else { "frame_duplicated" }.into(), format!("task {task} (stream {sid}) submitted {} frames, {} are on the wire — wire order: {}", subs.len(), on_wire.len(), order)));
             continue;
         }
         for (k, (s, w)) in subs.iter().zip(on_wire.iter()).enumerate() {
+            if subs.iter().any(|x| x.data.len() > 65535) {
+                break;
+            }
             if s.cmd != w.cmd || s.data != w.data {
                 let sym = if subs.iter().any(|x| x.cmd == w.cmd && x.data == w.data) { "frames_of_one_task_reordered" } else { "frame_payload_spliced" };
                 problems.push((sym.into(), format!("task {task} (stream {sid}): frame #{k} on the wire is {} but {}:{} was submitted at that position — wire order: {}", w.brief(), refcodec::cmd_name(s.cmd), s.data.len(), order)));
@@ -249,9 +265,10 @@ fn record(rep: &mut Report, sc: &Scenario, out: &Outcome, seed: u64) {
 fn scenarios(rng: &mut Rng, n: usize) -> Vec<Scenario> {
     let mut v = vec![
         // the canonical one: two requests racing on a fresh session
-        Scenario { requests: 2, data_frames: 1, api: 0, start_yields: vec![0, 0], heartbeats: 0, padded: false, pipe: 0, payload: 12 },
-        Scenario { requests: 2, data_frames: 2, api: 2, start_yields: vec![0, 1], heartbeats: 1, padded: true, pipe: 0, payload: 20 },
-        Scenario { requests: 3, data_frames: 1, api: 1, start_yields: vec![0, 2, 1], heartbeats: 0, padded: true, pipe: 1, payload: 40 },
+        Scenario { requests: 2, data_frames: 1, api: 0, start_yields: vec![0, 0], heartbeats: 0, padded: false, pipe: 0, payload: 12, big: false },
+        Scenario { requests: 2, data_frames: 2, api: 2, start_yields: vec![0, 1], heartbeats: 1, padded: true, pipe: 0, payload: 20, big: false },
+        Scenario { requests: 3, data_frames: 1, api: 1, start_yields: vec![0, 2, 1], heartbeats: 0, padded: true, pipe: 1, payload: 40, big: false },
+        Scenario { requests: 2, data_frames: 3, api: 1, start_yields: vec![0, 1], heartbeats: 0, padded: false, pipe: 0, payload: 30, big: true },
     ];
     while v.len() < n {
         let requests = rng.usize(1, 5);
@@ -264,6 +281,7 @@ fn scenarios(rng: &mut Rng, n: usize) -> Vec<Scenario> {
             padded: rng.chance(0.5),
             pipe: rng.below(3) as u8,
             payload: *rng.pick(&[3usize, 12, 100, 900, 5000]),
+            big: rng.chance(0.15),
         });
     }
     v
